@@ -110,6 +110,57 @@ pub fn run(seed: u64, n: usize, out: &mut Out, tier: &str) {
             }
         }
     }
+    // (3b) exceptions across the label hierarchy: "a scriptlet exception removes exactly the identical injection
+    //      and a blanket exception removes all" — wherever along host / parent domain / entity either rule sits
+    for _ in 0..n / 4 {
+        let hosts = ["example.com", "sub.example.com", "x.sub.example.com"];
+        let locs = ["example.com", "sub.example.com", "x.sub.example.com", "example.*", "sub.example.*", "other.org", "com"];
+        let bodies = ["fnlet, a", "fnlet, b", "fnlet"];
+        let nr = 2 + r.below(4);
+        let mut rules: Vec<(String, bool, String)> = vec![]; // (location, exception?, body; empty body = blanket)
+        for _ in 0..nr {
+            let exc = r.pct(40);
+            let body = if exc && r.pct(25) { String::new() } else { r.pick(&bodies).to_string() };
+            rules.push((r.pick(&locs).to_string(), exc, body));
+        }
+        let lines: Vec<String> = rules.iter().map(|(l, x, b)| format!("{}{}+js({})", l, if *x { "#@#" } else { "##" }, b)).collect();
+        let mut e = Engine::from_rules_parametrised(&lines, Default::default(), true, true);
+        e.use_resources(vec![mk_resource("fnlet.js", &[], ResourceType::Mime(MimeType::ApplicationJavascript), "function fnlet(a, b, c) { BODY_FNLET }", 0)]);
+        for host in hosts {
+            let covers = |loc: &str| -> bool {
+                if let Some(ent) = loc.strip_suffix(".*") {
+                    let hw = host.strip_suffix(".com").unwrap_or(host);
+                    hw == ent || hw.ends_with(&format!(".{}", ent))
+                } else {
+                    host == loc || host.ends_with(&format!(".{}", loc))
+                }
+            };
+            let blanket = rules.iter().any(|(l, x, b)| *x && b.is_empty() && covers(l));
+            let mut expect: Vec<String> = vec![];
+            for (l, x, b) in &rules {
+                if !*x && covers(l) && !blanket && !rules.iter().any(|(l2, x2, b2)| *x2 && b2 == b && covers(l2)) {
+                    let call = match b.as_str() { "fnlet, a" => "fnlet(\"a\")", "fnlet, b" => "fnlet(\"b\")", _ => "fnlet()" };
+                    if !expect.contains(&call.to_string()) {
+                        expect.push(call.to_string());
+                    }
+                }
+            }
+            expect.sort();
+            let url = format!("https://{}/", host);
+            match guarded(std::panic::AssertUnwindSafe(|| e.url_cosmetic_resources(&url))) {
+                Err(p) => out.fail("panic-in-cosmetic-query", None, json!({"rules": lines, "url": url, "panic": p})),
+                Ok(cr) => {
+                    let mut got: Vec<String> = cr.injected_script.lines().filter(|l| l.starts_with("fnlet(")).map(|l| l.to_string()).collect();
+                    got.sort();
+                    got.dedup();
+                    if got != expect {
+                        out.fail("injections-differ-from-rules-minus-exceptions", None, json!({"rules": lines, "url": url, "injected_calls": got, "expected_calls": expect}));
+                    }
+                    out.bump(if expect.is_empty() { "hierarchy_pages_without_injection" } else { "hierarchy_pages_with_injection" });
+                }
+            }
+        }
+    }
     // (4) several lists with different permission masks on one page: the same and different
     //     scriptlets, shared dependencies
     for _ in 0..n / 4 {
